@@ -317,7 +317,7 @@ def mk_tperm(draw, cfg, dom, m, n, batch, depth):
 def _kernel(draw, cfg, dom, m, n, batch, opname):
     D = draw(st.integers(1, 2))
     names = ["rbf", "linear"]
-    if m % 2 == 0 and n % 2 == 0:
+    if m % 2 == 0 and n % 2 == 0 and cfg.ok("Kernel.multitask"):
         names.append("multitask")
     kname = draw(st.sampled_from(names))
     mm, nn = (m // 2, n // 2) if kname == "multitask" else (m, n)
